@@ -87,6 +87,19 @@ impl Rng {
     pub fn u128(&mut self) -> u128 {
         ((self.next() as u128) << 64) | self.next() as u128
     }
+    /// `n` bytes made of little-endian 32-bit words, each drawn from the boundary values of a machine word or at random:
+    /// a key, nonce or counter word that shares a register lane with something else is compared, added to or carried into
+    /// somewhere, and small / all-ones / sign-boundary words are where that goes wrong
+    pub fn boundary_words(&mut self, n: usize) -> Vec<u8> {
+        const EDGE: [u32; 8] = [0, 1, 2, 3, 0x7fff_ffff, 0x8000_0000, 0xffff_fffe, 0xffff_ffff];
+        let mut v = Vec::with_capacity(n + 4);
+        while v.len() < n {
+            let w = if self.below(3) == 0 { self.next() as u32 } else { EDGE[self.below(8) as usize] };
+            v.extend_from_slice(&w.to_le_bytes());
+        }
+        v.truncate(n);
+        v
+    }
 }
 
 /// The sub-streams of one run. Adding a draw to one stream never shifts another.
